@@ -171,17 +171,19 @@ def sched_reach(*a):
 KA = [W.PASS, W.FAIL, W.ERROR, W.XPASS, W.SKIP_BODY, W.ERR_TD, W.TD_ERR]
 
 
-def equal(j, ka, kb, su, td, imp, verbose):
+def equal(j, ka, kb, su, td, imp, verbose, both=False):
     global LAST
     j = ci(j, 1, 3)
     ka, kb = pick(KA, ka), pick(KA, kb)
     su, td = ci(su, 0, 2), ci(td, 0, 2)
     imp = cb(imp)
+    both = cb(both)
     verbose = ci(verbose, 0, 2)
     with untraced():
         sud = {1: {'A': 1}, 2: {'B': 1}}.get(su, {})
         tdd = {1: {'A': 1}, 2: {'B': 1}}.get(td, {})
-        world = FR.World({'a0': W.PASS, 'a1': ka, 'b0': kb, 'b1': W.PASS, 'u0': W.PASS}, su=sud, td=tdd, imp=imp, order=['b0', 'a0', 'u0', 'b1', 'a1'])
+        world = FR.World({'a0': W.ERROR if both else W.PASS, 'a1': ka, 'b0': kb, 'b1': W.FAIL if both else W.PASS, 'u0': W.PASS, 'x0': W.PASS, 'x1': W.ERROR if both else W.PASS},
+                         su=sud, td=tdd, imp=imp, order=['b0', 'x0', 'a0', 'u0', 'b1', 'a1', 'x1'])
     argv = ['-' + 'v' * verbose] if verbose else []
     seq = FR.run(world, 'seq', argv=argv)
     par = FR.run(world, {1: 'j1', 2: 'j2', 3: 'j3'}[j], argv=argv)
@@ -213,7 +215,7 @@ def equal(j, ka, kb, su, td, imp, verbose):
             hp = [m for m in re.findall(r'Running (\S+) tests:', par.text) if m != '.EmptyLayer']
             if hs != hp:
                 why = 'layer blocks printed in order %r, sequential order %r' % (hp, hs)
-    LAST = (j, W.KIND_NAMES[ka], W.KIND_NAMES[kb], su, td, imp, verbose, why, len(par.children))
+    LAST = (j, W.KIND_NAMES[ka], W.KIND_NAMES[kb], su, td, imp, verbose, why, len(par.children), both)
     return why is None
 
 
@@ -230,7 +232,7 @@ def _sb(dmax, gmax):
     return ('1 <= n <= 4 and 0 <= verbose <= 2 and ' + ' and '.join('1 <= d%d <= %d and 0 <= g%d <= %d and 0 <= a%d <= d%d' % (i, dmax, i, gmax, i, i) for i in range(3)))
 
 
-_PE = [('j', 'int'), ('ka', 'int'), ('kb', 'int'), ('su', 'int'), ('td', 'int'), ('imp', 'bool'), ('verbose', 'int')]
+_PE = [('j', 'int'), ('ka', 'int'), ('kb', 'int'), ('su', 'int'), ('td', 'int'), ('imp', 'bool'), ('verbose', 'int'), ('both', 'bool')]
 _CE = ', '.join(n for n, _ in _PE)
 _BE = '1 <= j <= 3 and 0 <= ka < %d and 0 <= kb < %d and 0 <= su <= 2 and 0 <= td <= 2 and 0 <= verbose <= 2' % (len(KA), len(KA))
 
@@ -242,7 +244,7 @@ def _v(**kw):
 
 
 def _ve(**kw):
-    v = dict(j=2, ka=1, kb=0, su=0, td=0, imp=False, verbose=1)
+    v = dict(j=2, ka=1, kb=0, su=0, td=0, imp=False, verbose=1, both=False)
     v.update(kw)
     return v
 
@@ -274,6 +276,6 @@ SPEC = {
                     'thorough': ['j == %d and ka == %d and verbose == %d' % (j, k, vb) for j in (1, 2, 3) for k in range(len(KA)) for vb in range(3)]},
          'reach': 'equal_reach', 'reach_bounds': {'quick': _BE + ' and su == 0', 'thorough': _BE + ' and su == 0'},
          'timeout': {'quick': 400, 'thorough': 1700},
-         'fidelity': [_ve(), _ve(j=3, ka=6, kb=2, td=1, verbose=2), _ve(j=1, su=2, imp=True, verbose=0)]},
+         'fidelity': [_ve(), _ve(j=3, ka=6, kb=2, td=1, verbose=2), _ve(j=1, su=2, imp=True, verbose=0), _ve(j=2, ka=2, kb=1, both=True)]},
     ],
 }
